@@ -182,6 +182,16 @@ func runGrpcCase(t *testing.T, c gCase) (rows []string, problems []string, flags
 					opts = append(opts, state.WithLabelQuery(resource.LabelExists("k", resource.NotMatches)))
 				case "in":
 					opts = append(opts, state.WithLabelQuery(resource.LabelIn("k", []string{"v", o.Label})))
+				case "noteq+exists":
+					opts = append(opts, state.WithLabelQuery(resource.LabelEqual("k", o.Label, resource.NotMatches), resource.LabelExists("k")))
+				case "notexists+in":
+					opts = append(opts, state.WithLabelQuery(resource.LabelExists("zz", resource.NotMatches), resource.LabelIn("k", []string{"v", o.Label})))
+				case "exists+noteq":
+					opts = append(opts, state.WithLabelQuery(resource.LabelExists("k"), resource.LabelEqual("k", o.Label, resource.NotMatches)))
+				case "notin+exists+eq":
+					opts = append(opts, state.WithLabelQuery(resource.LabelIn("k", []string{"w"}, resource.NotMatches), resource.LabelExists("k"), resource.LabelEqual("k", "v")))
+				case "or":
+					opts = append(opts, state.WithLabelQuery(resource.LabelEqual("k", "v")), state.WithLabelQuery(resource.LabelExists("k", resource.NotMatches)))
 				case "id":
 					opts = append(opts, state.WithIDQuery(resource.IDRegexpMatch(regexpFor(o.ID))))
 				}
@@ -327,7 +337,7 @@ func genGrpcCase(r *rng) gCase {
 			o.Op = "get"
 		case x < 70:
 			o.Op = "list"
-			o.Query = pick(r, []string{"", "eq", "exists", "notexists", "in", "id"})
+			o.Query = pick(r, []string{"", "eq", "exists", "notexists", "in", "id", "noteq+exists", "notexists+in", "exists+noteq", "notin+exists+eq", "or"})
 		case x < 80:
 			o.Op = "teardown"
 		case x < 86:
